@@ -194,6 +194,12 @@ func (w *Writer) Write(pck *Packet) int {
 		return 0
 	}
 
+	// A write that no reader can accept is not a request: it returns 0, is never answered, and
+	// must not be shown to the outbound hooks as one.
+	if !w.accepting() {
+		return 0
+	}
+
 	w.outbounds.Handle(pck)
 
 	count := 0
@@ -304,6 +310,16 @@ func joinAccepted(receives []*Packet) *Packet {
 		return New(ErrDroppedPacket)
 	}
 	return Join(pcks...)
+}
+
+// accepting reports whether at least one linked reader is still open. The caller holds w.mu.
+func (w *Writer) accepting() bool {
+	for _, r := range w.readers {
+		if !r.closed() {
+			return true
+		}
+	}
+	return false
 }
 
 func (w *Writer) indexOfReader(reader *Reader) int {
